@@ -128,6 +128,19 @@ def c_postselect(ctx, args):
         w = ctx.model.call('postselect_m', t, P, res)
         if isinstance(w, Err) or int(round(2 * prob)) != w[1] or not S.same_state(got, w[0]):
             return {'kind': 'corr', 'where': 'np:postselect vs model', 'observed': [got, prob], 'expected': repr(w)}
+    inv = S.tableau_invariant_py(got)
+    if inv:
+        return {'kind': 'oracle', 'where': 'np:postselect breaks the tableau invariant: ' + inv, 'observed': got, 'expected': 'valid tableau'}
+    # history: post-selecting the same outcome again is certain and changes nothing; the opposite outcome is impossible
+    if prob > 0:
+        before = S.st_list(s)
+        try:
+            p2 = s.postselect(NP.P(P), res)
+            p3 = s.postselect(NP.P(P), 1 - res)
+        except Exception as e:
+            return {'kind': 'oracle', 'where': 'np:repeated postselect raised %s' % type(e).__name__, 'observed': str(e)[:80], 'expected': 'probabilities 1 and 0'}
+        if p2 != 1.0 or p3 != 0.0 or not S.same_state(S.st_list(s), before):
+            return {'kind': 'oracle', 'where': 'np:repeated postselect', 'observed': [p2, p3, S.st_list(s)], 'expected': [1.0, 0.0, before]}
     if n <= 4:
         rho = S.rho(t)
         Pm = (np.eye(2 ** n) + (-1) ** res * D.op(*P)) / 2
@@ -165,6 +178,7 @@ def c_backward(ctx, args):
         got = 'ValueError'
     except Exception as e:
         got = 'other:' + type(e).__name__
+        return {'kind': 'oracle', 'where': 'np:Circuit.backward raised %s' % type(e).__name__, 'observed': str(e)[:100], 'expected': 'a state or ValueError'}
     if not ctx.search:
         want = M.call('mcirc_backward', mprog(prog), mid, use)
         if isinstance(want, Err):
@@ -173,6 +187,10 @@ def c_backward(ctx, args):
             return None
         if got == 'ValueError' or isinstance(got, str) or not S.same_state(got, want):
             return {'kind': 'corr', 'where': 'np:Circuit.backward (%s record)' % mode, 'observed': got, 'expected': want}
+    if not isinstance(got, str):
+        inv = S.tableau_invariant_py(got)
+        if inv:
+            return {'kind': 'oracle', 'where': 'np:Circuit.backward breaks the tableau invariant: ' + inv, 'observed': got, 'expected': 'valid tableau'}
     if N <= 3 and not isinstance(got, str):
         # adjoint of the recorded trajectory, densely: reverse order, project on the record, undo gates
         rho = S.rho(mid)
